@@ -310,6 +310,10 @@ def write_evidence(prop, tier, cls, verif_seed, results, corpus_results, wall, n
         ),
         assumptions=m.ASSUMPTIONS,
     )
-    os.makedirs(os.path.join(VERIF_DIR, "evidence"), exist_ok=True)
-    with open(os.path.join(VERIF_DIR, "evidence", f"{prop}.json"), "w") as fh:
+    evdir = os.path.join(VERIF_DIR, "evidence")
+    if os.path.abspath(os.environ.get("VERIF_REPO", "/repo")) != "/repo":
+        # runs against a scratch copy (seeded changes) are not evidence about /repo
+        evdir = os.path.join(VERIF_DIR, "out", "evidence-scratch")
+    os.makedirs(evdir, exist_ok=True)
+    with open(os.path.join(evdir, f"{prop}.json"), "w") as fh:
         json.dump(doc, fh, indent=1, sort_keys=True, default=str)
